@@ -26,6 +26,7 @@ type EvalCtx struct {
 	override map[ssa.Value]Value
 	at       *ssa.BasicBlock // program point for SSA name resolution (loop head), nil = function boundary
 	inQuant  int
+	pkg      string
 	declareRegions bool
 	atEnd    bool // resolve SSA names at the end of block `at` (returns) instead of its entry
 	forceNames bool // contract names shadow SSA variables (expanded quantifier variables)
@@ -99,6 +100,17 @@ func (c *EvalCtx) evalInt(e *Expr) *Term {
 }
 
 func (c *EvalCtx) vc() *VC { return c.f.vc }
+
+// pkgName: the package whose specs and package-level names are in scope.
+func (c *EvalCtx) pkgName() string {
+	if c.pkg != "" {
+		return c.pkg
+	}
+	if c.f.fn != nil && c.f.fn.Pkg != nil {
+		return pkgShort(c.f.fn.Pkg.Pkg)
+	}
+	return ""
+}
 
 func (c *EvalCtx) eval(e *Expr) CV {
 	B := c.vc().B
@@ -685,7 +697,7 @@ func (c *EvalCtx) evalCall(e *Expr) CV {
 		vc.pow2Fun()
 		return CV{VT{B.App("tbl_pow2", n)}, nil}
 	}
-	if m, ok := vc.CS.Macros[e.Name]; ok {
+	if m, ok := vc.CS.macro(c.pkgName(), e.Name); ok {
 		if len(m.Params) != len(e.Args) {
 			evalFail("spec %s expects %d arguments", e.Name, len(m.Params))
 		}
@@ -758,7 +770,7 @@ func (c *EvalCtx) resolveName(name string) CV {
 	if v, ok := c.names[name]; ok {
 		return v
 	}
-	if m, ok := vc.CS.Macros[name]; ok && len(m.Params) == 0 {
+	if m, ok := vc.CS.macro(c.pkgName(), name); ok && len(m.Params) == 0 {
 		return c.eval(m.Body)
 	}
 	// package-level objects of the function's package
